@@ -56,8 +56,9 @@ def main():
                    'mutating calls; replays compare real frames before/after)',
                    'the converter functions (C16, not applicable)', 'histories longer than two calls '
                    'are covered by the inductive step only']
-    dims = dict(nl=2, nr=2, k=2 if not quick else 1, kmin=0, bag=True, tok_return_set=[True, False],
-                missing='sym', allow_missing=[False, True], n_jobs=[1, 2], props=P, validate_every=80)
+    dims = dict(nl=2, nr=2 if quick else 3, k=1, kmin=0, bag=True, tok_return_set=[True, False],
+                missing='sym', allow_missing=[False, True], n_jobs=[1, 2] if quick else [1, 2, 3], props=P,
+                validate_every=80)
     for e in stages.SET_JOINS:
         cfg = stages.join_cfg(e, **dims)
         cfg['thresholds'] = [1] if e == 'overlap_join' else [0.5]
@@ -66,6 +67,13 @@ def main():
         cfg = stages.filter_cfg(f, **dims)
         cfg['thresholds'] = [1] if f == 'OverlapFilter' else [0.5]
         ck.e2('step-%s' % f, h_join.make(cfg))
+    if not quick:
+        # bags with repeated tokens (k=2) on small tables
+        for e in stages.SET_JOINS:
+            cfg = stages.join_cfg(e, nl=1, nr=2, k=2, kmin=0, bag=True, tok_return_set=[True, False],
+                                  n_jobs=[1, 2], props=P, validate_every=80)
+            cfg['thresholds'] = [1] if e == 'overlap_join' else [0.5]
+            ck.e2('step-bags-%s' % e, h_join.make(cfg))
     # tables that consist of exactly the key and the join column (projection may alias the input)
     for e in ('jaccard_join', 'overlap_coefficient_join', 'overlap_join'):
         cfg = stages.join_cfg(e, nl=2, nr=2, k=1, kmin=0, tok_return_set=[True, False], missing='sym',
